@@ -46,7 +46,7 @@ def main():
             print("demo: mutated rc=%d, current /repo rc=%d" % (
                 q.returncode, q2.returncode))
         for pid in ids:
-            env = dict(os.environ, VERIF_REPO=wt)
+            env = dict(os.environ, VERIF_REPO=wt, VERIF_OUT="/dev/shm/verif_mutout")
             t0 = time.time()
             q = subprocess.run([os.path.join(HERE, "check"), pid, "--tier",
                                 tier], env=env, capture_output=True,
